@@ -459,6 +459,52 @@ def replay_quadrature_pols(p):
 
 
 # ------------------------------------------------------------------ concrete oracles
+LARGE = (17, 70001)          # more than 2**20 samples, odd sizes
+
+
+def _large_noise(ntype):
+    """a frame of more than a million samples (executed concretely): the noise added is the seeded generator's draws for
+    the WHOLE frame, mapped as documented -- block-wise drawing must not leave rows out"""
+    import setigen as stg
+    T, Fc = LARGE
+    fr = stg.Frame(fchans=Fc, tchans=T, df=2.0, dt=4.0, fch1=4096.0, seed=17)
+    ref = np.random.default_rng(17)
+    k = 4 * round(2.0 * 4.0)
+    if ntype == 'chi2':
+        n = fr.add_noise(3.0)
+        want = ref.chisquare(df=k, size=(T, Fc)) * 3.0 / k
+    elif ntype == 'gaussian':
+        n = fr.add_noise(3.0, 1.0, noise_type='gaussian')
+        want = ref.normal(3.0, 1.0, (T, Fc))
+    else:
+        n = fr.add_noise(3.0, 1.0, 2.5, noise_type='normal')
+        want = np.maximum(ref.normal(3.0, 1.0, (T, Fc)), 2.5)
+    if n.shape != want.shape:
+        return f"{ntype} noise of shape {n.shape} for a {LARGE} frame"
+    if not np.array_equal(fr.data, n):
+        return f"{ntype}: returned noise is not what was added ({LARGE} frame)"
+    rows = [i for i in range(T) if not np.allclose(n[i], want[i], rtol=1e-12, atol=1e-12)]
+    if rows:
+        return f"{ntype} noise on a {LARGE} frame: rows {rows[:5]} are not the seeded draws mapped as documented (row {rows[0]} has mean {float(np.mean(n[rows[0]])):.3g}, the draws give {float(np.mean(want[rows[0]])):.3g})"
+    return None
+
+
+def job_large_noise(ntype):
+    recs = []
+    msg = _large_noise(ntype)
+    name = f"C11:large-frame-noise:{ntype}"
+    r, _ = core.check([RV(int(msg is None)) != 1])
+    recs.append(q(name, r, trivial=True, shape=str(LARGE), detail=msg or ''))
+    if msg:
+        recs.append(cex('C11:large-frame-noise', msg, dict(fn='large_noise', ntype=ntype), name=name))
+    return recs
+
+
+def replay_large_noise(p):
+    msg = _large_noise(p['ntype'])
+    return bool(msg), msg or 'large-frame noise is the mapped draws'
+
+
 def replay_add_noise(p):
     import setigen as stg
     gdf, gdt = abs(p.get('df', 2.0)) or 2.0, abs(p.get('dt', 4.0)) or 4.0
@@ -624,7 +670,7 @@ def replay_quadrature(p):
     return bad, f"sequence {p['seq']}: total {st.get_total_noise_std()} (expected {want}), other antenna {other.get_total_noise_std()} (expected {want_o})"
 
 
-REPLAYS = {'add_noise': replay_add_noise, 'from_obs': replay_from_obs, 'errors': replay_errors, 'snr': replay_snr, 'quadrature': replay_quadrature, 'quadrature_pols': replay_quadrature_pols, 'default_tables': replay_default_tables}
+REPLAYS = {'large_noise': replay_large_noise, 'add_noise': replay_add_noise, 'from_obs': replay_from_obs, 'errors': replay_errors, 'snr': replay_snr, 'quadrature': replay_quadrature, 'quadrature_pols': replay_quadrature_pols, 'default_tables': replay_default_tables}
 
 
 def main():
@@ -640,6 +686,8 @@ def main():
         for prior in ('zero', 'content', 'zeroed', 'zeroed_int'):
             jobs.append(('job_add_noise', (2, 2 if ntype != 'chi2' else 3, ntype, prior)))
     jobs.append(('job_errors', ()))
+    for ntype in ('chi2', 'gaussian', 'truncated'):
+        jobs.append(('job_large_noise', (ntype,)))
     for ntype in ('chi2', 'gaussian'):
         for share in (True, False):
             for with_min in ((False, True) if ntype == 'gaussian' else (False,)):
